@@ -54,15 +54,19 @@ Definition usize_go (v : N) : nat :=
 Definition usize (v : N) : nat :=
   if v <? 18446744073709551616 then usize_go v else N.to_nat (N.log2 v / 8 + 1).
 
+(* first byte of a varint: the size, plus 0xF0 for negative numbers.  For sizes above 8 (no Go
+   value has one) the model uses fresh even/odd codes so that the encoding stays injective. *)
+Definition marker (neg : bool) (s : nat) : N :=
+  if (s <=? 8)%nat then (if neg then N.of_nat s + 240 else N.of_nat s)
+  else (if neg then 2 * N.of_nat s + 1001 else 2 * N.of_nat s + 1000).
+
 (* WriteVarint on a Go int given as Z (|i| <= 2^63) *)
 Definition enc_varint (i : Z) : bytes :=
-  let a := Z.abs_N i in
-  let s := usize a in
-  (if (i <? 0)%Z then N.of_nat s + 240 else N.of_nat s) :: be_bytes s a.
+  marker (i <? 0)%Z (usize (Z.abs_N i)) :: be_bytes (usize (Z.abs_N i)) (Z.abs_N i).
 
 (* WriteUvarint *)
 Definition enc_uvarint (a : N) : bytes :=
-  let s := usize a in N.of_nat s :: be_bytes s a.
+  marker false (usize a) :: be_bytes (usize a) a.
 
 (* WriteByteSlice *)
 Definition enc_bs (b : bytes) : bytes :=
